@@ -197,6 +197,9 @@ where
                         server_pending = true;
                     }
                 }
+            } else {
+                // Without a replier there is nothing to wait for on this side
+                server_pending = true;
             }
 
             // If we've got a reply buffered already, we need to write it to the sink
@@ -235,6 +238,9 @@ where
                         let si = &mut server.as_mut().as_pin_mut().unwrap().0;
                         ready!(si.poll_flush_unpin(cx)).unwrap();
                     }
+
+                    // No requestor streams: new ones arrive through the handle
+                    stream_pending = true;
                 }
                 // No messages are available at this time
                 Poll::Pending => {
